@@ -723,9 +723,83 @@ theorem c02_shape_Tree_Search :
     Shapes.tree_Tree_Search =
    ["if:tns.ID.Equal(tn)", "Root.Visit", "return:ret"] := rfl
 
-theorem c02_shape_ServerIdentity_Equal :
+theorem c02_shape_struct_ServerIdentity_Equal :
     Shapes.network_struct_ServerIdentity_Equal =
-   ["if:((((si==nil)||(e2==nil))||(si.Public==nil))||(e2.Public==nil))", "return:false", "return:si.Public.Equal(e2.Public)"] := rfl
+   ["if:((((si==nil)||(e2==nil))||(si.Public==nil))||(e2.Public==nil))", "return:false",
+     "return:si.Public.Equal(e2.Public)"] := rfl
+
+theorem c02_shape_TreeNodeInstance_createValueAndVerify_b2 :
+    Shapes.treenode_TreeNodeInstance_createValueAndVerify_b2 =
+   ["assign:m:=reflect.Indirect(reflect.New(t))", "n.Tree", "assign:tr:=n.Tree()", "if:(t!=nil)",
+     "tr.Search", "assign:tn:=tr.Search(msg.From.TreeNodeID)", "if:(tn==nil)",
+     "return:m,xerrors.New(\"\")", "m.Field", "Field().Set", "m.Field", "Field().Set",
+     "if:(((msg.ServerIdentity!=nil)&&(tn!=nil))&&!tn.ServerIdentity.Equal(msg.ServerIdentity))",
+     "return:m,xerrors.Errorf(\"\",tn.ServerIdentity,msg.ServerIdentity)", "return:m,nil"] := rfl
+
+theorem c02_shape_TreeNodeInstance_Tree_b2 :
+    Shapes.treenode_TreeNodeInstance_Tree_b2 =
+   ["treeStorage.Get", "assign:tree:=n.overlay.treeStorage.Get(n.token.TreeID)",
+     "if:(tree==nil)", "return:tree"] := rfl
+
+theorem c02_shape_Tree_Search_b2 :
+    Shapes.tree_Tree_Search_b2 =
+   ["if:tns.ID.Equal(tn)", "assign:ret=tns", "assign:found:=func", "Root.Visit", "return:ret"] := rfl
+
+theorem c02_shape_Overlay_Process_b2 :
+    Shapes.overlay_Overlay_Process_b2 =
+   ["if:env.MsgType.Equal(ConfigMsgID)", "o.handleConfigMessage", "return:",
+     "protoIO.getByPacketType", "assign:io:=o.protoIO.getByPacketType(env.MsgType)", "io.Unwrap",
+     "assign:inner,info,err:=io.Unwrap(env.Msg)", "if:(err!=nil)", "return:", "switch:{",
+     "case:(info.RequestTree!=nil)", "o.handleRequestTree", "case:(info.ResponseTree!=nil)",
+     "o.handleSendTree", "case:(info.TreeMarshal!=nil)", "o.handleSendTreeMarshal",
+     "case:(info.RequestRoster!=nil)", "o.handleRequestRoster", "case:(info.Roster!=nil)",
+     "o.handleSendRoster", "default", "network.MessageType",
+     "assign:typ:=network.MessageType(inner)",
+     "assign:protoMsg:=&ProtocolMsg{From:info.TreeNodeInfo.From,To:info.TreeNodeInfo.To,ServerIdentity:env.ServerIdentity,Msg:inner,MsgType:typ,Size:env.Size}",
+     "o.TransmitMsg", "assign:err=o.TransmitMsg(protoMsg,io)", "if:(err!=nil)", "}"] := rfl
+
+theorem c02_shape_router_Router_handleConn_b2 :
+    Shapes.network_router_Router_handleConn_b2 =
+   ["defer{", "c.Close", "assign:err:=c.Close()", "if:(err!=nil)", "c.Rx", "c.Tx",
+     "assign:rx,tx:=c.Rx(),c.Tx()", "traffic.updateRx", "traffic.updateTx", "wg.Done",
+     "r.removeConnection", "verifC10Point", "}", "verifC10Point", "c.Remote",
+     "assign:address:=c.Remote()", "for:{", "c.Receive", "assign:packet,err:=c.Receive()",
+     "verifC10Point", "r.Lock", "assign:paused:=r.paused", "r.Unlock", "if:(paused!=nil)",
+     "recv:paused", "r.Lock", "assign:r.paused=nil", "r.Unlock", "return:", "if:r.Closed()",
+     "return:", "if:(err!=nil)", "if:xerrors.Is(err,ErrTimeout)",
+     "r.triggerConnectionErrorHandlers", "return:",
+     "if:(xerrors.Is(err,ErrClosed)||xerrors.Is(err,ErrEOF))",
+     "r.triggerConnectionErrorHandlers", "return:", "if:xerrors.Is(err,ErrUnknown)",
+     "r.triggerConnectionErrorHandlers", "return:", "continue",
+     "assign:packet.ServerIdentity=remote", "verifC10Point", "msgTraffic.updateRx", "r.Dispatch",
+     "assign:err:=r.Dispatch(packet)", "if:(err!=nil)", "}"] := rfl
+
+theorem c02_shape_router_Router_Send_b2 :
+    Shapes.network_router_Router_Send_b2 =
+   ["range:_,msg:=msgs{", "if:(msg==nil)", "return:0,xerrors.New(\"\")", "}",
+     "if:(len(msgs)==0)", "return:0,xerrors.New(\"\")", "msgTraffic.updateTx",
+     "if:e.GetID().Equal(r.ServerIdentity.GetID())", "range:_,msg:=msgs{", "MessageType",
+     "assign:packet:=&Envelope{ServerIdentity:e,MsgType:MessageType(msg),Msg:msg}", "r.Dispatch",
+     "assign:err:=r.Dispatch(packet)", "if:(err!=nil)", "return:0,xerrors.Errorf(\"\",err)",
+     "Marshal", "assign:b,err:=Marshal(msg)", "if:(err!=nil)",
+     "return:0,xerrors.Errorf(\"\",err)", "assign:sent+=uint64(len(b))", "}", "return:sent,nil",
+     "e.GetID", "r.connection", "assign:c:=r.connection(e.GetID())", "if:(c==nil)", "r.connect",
+     "assign:c,sentLen,err=r.connect(e)", "assign:totSentLen+=sentLen", "if:(err!=nil)",
+     "return:totSentLen,xerrors.Errorf(\"\",err)", "range:_,msg:=msgs{", "c.Send",
+     "assign:sentLen,err:=c.Send(msg)", "assign:totSentLen+=sentLen", "if:(err!=nil)",
+     "r.connect", "assign:c,sentLen,err:=r.connect(e)", "assign:totSentLen+=sentLen",
+     "if:(err!=nil)", "return:totSentLen,xerrors.Errorf(\"\",err)", "c.Send",
+     "assign:sentLen,err=c.Send(msg)", "assign:totSentLen+=sentLen", "if:(err!=nil)",
+     "return:totSentLen,xerrors.Errorf(\"\",err)", "}", "return:totSentLen,nil"] := rfl
+
+theorem c02_shape_struct_ServerIdentity_Equal_b2 :
+    Shapes.network_struct_ServerIdentity_Equal_b2 =
+   ["if:((((si==nil)||(e2==nil))||(si.Public==nil))||(e2.Public==nil))", "return:false",
+     "return:si.Public.Equal(e2.Public)"] := rfl
+
+theorem c02_shape_treeStorage_Get_b2 :
+    Shapes.treestorage_treeStorage_Get_b2 =
+   ["ts.Lock", "defer:ts.Unlock", "return:ts.trees[id]"] := rfl
 
 
 end C02
